@@ -8,8 +8,8 @@ from . import synprint, rsview, drive, exec as sexec
 
 VERIF = os.path.dirname(os.path.dirname(os.path.abspath(__file__)))
 REPO = os.environ.get('VERIF_REPO', '/repo')
-CACHE = os.path.join(VERIF, '.cache')
-WORK = os.path.join(VERIF, 'work')
+CACHE = os.environ.get('VERIF_CACHE') or os.path.join(VERIF, '.cache')
+WORK = os.environ.get('VERIF_WORK') or os.path.join(VERIF, 'work')
 
 
 def to_source(toks):
@@ -305,11 +305,20 @@ def concretize_front(prog, pr, model):
     info = pr.notes['input']
     alpha, labels = front.attr_alphabet()
     toks = []
-    for i in range(info['n']):
-        k = pr.decisions.get(f'a[{i}]', 0)
-        if k == 0:
-            break
-        toks.append(alpha[k - 1])
+    if info.get('items'):
+        ex2 = sexec.Exec(prog, [])
+        ex2.decisions = dict(pr.decisions)
+        ex2.decide = lambda n, label: 0
+        ex2.assume = lambda c: None
+        cells = front.attr_item_cells(info['target'], info['items'], info['head'], info['reduced'])
+        front.expand_segments(ex2, cells, 10 ** 6)
+        toks = [t for t in cells if isinstance(t, tuple)]
+    else:
+        for i in range(info['n']):
+            k = pr.decisions.get(f'a[{i}]', 0)
+            if k == 0:
+                break
+            toks.append(alpha[k - 1])
     target = info['target']
     item = drive.fixed_item(prog, target)
     P = synprint.Printer(name_of=namer(model), resolve=lambda s: s)
